@@ -231,12 +231,15 @@ func (p *pair) step(f fatalfer, m *message) {
 		if !hasBadKeyType {
 			f.Fatalf("the batch was refused as a whole although only key members differ from the served twin%s", ctx())
 		}
-		if anyKeyed || len(m.Elems) > 1 {
+		if anyKeyed {
 			if !kf.Report(f, "C19", kfWholeBatch,
-				"a batch holding an element whose \"key\" member is not a JSON string is refused as a whole (one error object): elements of the same batch that carry the key are not served, and well-formed un-keyed elements do not get the invalid-key error%s", ctx()) {
+				"a batch holding an element whose \"key\" member is not a JSON string is refused as a whole (one error object), so the elements of the same batch that do carry the key are not served%s", ctx()) {
 				return
 			}
 		}
+		// Without keyed siblings nothing is served and every element is answered by
+		// the one error object; that the error is not the invalid-key error for the
+		// well-formed un-keyed siblings is not held against the server.
 		skipRelative = true
 	}
 
